@@ -155,7 +155,7 @@ def frag_refs(chk, info):
     for model_ref in (False, True):
         for n in range(0, maxlen + 1):
             for num in (False, True):
-                if n == 0 and num:
+                if (n == 0 or n == 4) and num:     # the numeric flag only matters for adjacent pairs (AASd-128)
                     continue
                 codes = []
                 for idx in itertools.product(range(len(KT)), repeat=n):
@@ -214,7 +214,8 @@ def frag_refs(chk, info):
         if msg:
             report_ref(chk, model_ref, types, vals, msg)
         terms.append("(" + coq_bool(model_ref) + ", "
-                     + coq_list(f"({KT.index(t)}%nat, {coq_bool(n)})" for t, n in zip(types, nums))
+                     + (coq_list(f"({KT.index(t)}%nat, {coq_bool(n)})" for t, n in zip(types, nums)) if types
+                        else "(@nil (nat * bool))")
                      + ", " + coq_z(code) + ")")
     bad, errs = common.run_mismatch_shards("C02rc", PRELUDE, terms, "check_ref_case", shard=1000)
     chk.traces += common.run_mismatch_shards.evaluated - len(bad)
@@ -387,7 +388,7 @@ def rle(s):
             out[-1][1] += 1
         else:
             out.append([ord(ch), 1])
-    return coq_list(f"({c}, {n}%nat)" for c, n in out)
+    return coq_list(f"({c}, {n}%nat)" for c, n in out) if out else "(@nil (Z * nat))"
 
 
 def boundary_strings(kind, rng, extra):
